@@ -114,6 +114,19 @@ Proof.
     assert (g' = c_g c) by (eapply ancestor_genesis; eauto). subst g'. apply ancestor_stored in Hg'. tauto.
 Qed.
 
+(* a second crash, DURING the restart repair: the repair of a head issues at most one batch (the bft commit), and after any
+   prefix of it the invariant holds again, so the next start succeeds with a readable best block *)
+Theorem crash_during_repair_is_consistent c rep s id j : wf_cfg c -> Inv c s ->
+  let s1 := apply_writes s (firstn j (repair_one c s id)) in
+  Inv c s1 /\
+  exists s' best fin, restart c rep s1 = Some (s', best, fin) /\ Inv c s' /\ readable s' best = true /\ stored s' fin = true.
+Proof.
+  intros Hc I s1.
+  assert (I1 : Inv c s1) by (apply all_prefixes_firstn; apply repair_one_prefixes; auto).
+  split; auto. destruct (restart_ok c rep s1 Hc I1) as (s' & best & fin & H1 & H2 & _ & H3 & H4).
+  exists s', best, fin. auto.
+Qed.
+
 (* C13, first clause: for every history and EVERY cut position the node restarts and its best block's header, transactions,
    receipts, number index, state and ancestors are all there *)
 Theorem crash_consistent c rep s0 hist k :
